@@ -1614,8 +1614,14 @@ func (c *immuClient) VerifiedTxByID(ctx context.Context, tx uint64) (*schema.Tx,
 		provenAlh = sourceAlh
 	}
 
-	// entries digest is re-calculated from the returned entries
+	// entries digest is re-calculated from the returned entries; a transaction
+	// whose entries digest can not be calculated (e.g. entries with metadata under
+	// a header version that does not support them) would otherwise keep the digest
+	// sent by the server and pass the comparison below trivially
 	rtx := schema.TxFromProto(vTx.Tx)
+	if err := rtx.BuildHashTree(); err != nil {
+		return nil, store.ErrCorruptedData
+	}
 	if rtx.Header().ID != tx ||
 		rtx.Header().Eh != schema.DigestFromProto(vTx.Tx.Header.EH) ||
 		rtx.Header().Alh() != provenAlh {
